@@ -30,6 +30,9 @@ R.contract("Node.remove_peer_connection", params={"self": "Node", "conn": "PeerC
                      "self.connections[kc2].host_identity == conn.host_identity and "
                      "(self.connections[kc2].state == 18 or self.connections[kc2].state == 19), "
                      "not is_none(some(old(peer_of(self, conn))).connection))"),
+                    ("exactly-this-connection-leaves-the-table",
+                     "(kc2 in self.connections) == (old(kc2 in self.connections) and kc2 != conn.ident) and "
+                     "implies(kc2 in self.connections, self.connections[kc2] == old(self.connections[kc2]))"),
                     ("already-set-reason-kept",
                      "implies(not is_none(old(peer_of(self, conn))) and not is_none(old(some(peer_of(self, conn)).disconnect_reason)) and "
                      "not (old(some(peer_of(self, conn)).connection) == conn and not is_none(some(old(peer_of(self, conn))).connection)), "
@@ -161,7 +164,10 @@ _KEEP = ("an-application-with-a-ready-collected-peer-keeps-its-flag",
          "as_app(w).is_ready.flag == old(as_app(w).is_ready.flag))")
 R.loop("Node.remove_peer_connection", 3, invariants=[_KEEP], modifies=["*Event.flag"],
        hints=["event_owned(as_app(cur))", "event_owned(as_app(w))"],
-       local_kinds={"any_peer_ready": "bool"})
+       step=[("an-application-left-ready-has-a-ready-peer-among-those-collected-for-it",
+              "implies(is_app(app) and as_app(app).is_ready.flag, any_peer_ready and peer_ready(app_peer) and "
+              "app_peer in items(peers))")],
+       local_kinds={"any_peer_ready": "bool", "app_peer": "Peer"})
 R.loop("Node.remove_peer_connection", 4,
        invariants=[_KEEP, ("none-ready-so-far", "not any_peer_ready"),
                    ("visited-peers-not-ready", "implies(p in done4, not peer_ready(p))")],
@@ -262,7 +268,7 @@ R.loop("Node._flag_connection_as_ready", 2,
 
 del R.contracts["Node.close_connection_socket"]
 R.contract("Node.close_connection_socket", params={"self": "Node", "conn": "PeerConnection", "disconnect_reason": "int"},
-           ghost={"gs": "Socket"},
+           ghost={"gs": "Socket", "kc2": "str"},
            ghost_modifies=["conn.g_close_calls", "conn.g_close_reason"],
            ghost_ensures=["conn.g_close_calls == old(conn.g_close_calls) + 1", "conn.g_close_reason == disconnect_reason"],
            ensures=[("nothing-sent", "nothing_sent(conn)"),
@@ -272,6 +278,9 @@ R.contract("Node.close_connection_socket", params={"self": "Node", "conn": "Peer
                      "conn.state == %d and workers_stopped(conn))" % CLOSED),
                     ("never-reopens-a-socket-or-restarts-a-worker",
                      "implies(old(gs.closed), gs.closed) and implies(old(workers_stopped(conn)), workers_stopped(conn))"),
+                    ("exactly-this-connection-leaves-the-table",
+                     "(kc2 in self.connections) == (old(kc2 in self.connections) and kc2 != conn.ident) and "
+                     "implies(kc2 in self.connections, self.connections[kc2] == old(self.connections[kc2]))"),
                     ("unregistered-connection-keeps-its-state",
                      "implies(not old(conn.ident in self.peer_sockets), conn.state == old(conn.state))"),
                     ("pending-answers-dropped", "not (conn.host_identity in self._peer_waiting_answer)")],
